@@ -181,6 +181,7 @@ fn tracker_visit_expr<'a>(expr: &ast::Expr<'a>, state: &mut AssignmentTracker<'a
             tracker_visit_expr(&expr.subscript_expr, state);
         }
         ast::Expr::Slice(slice) => {
+            tracker_visit_expr(&slice.expr, state);
             tracker_visit_expr_opt(&slice.start, state);
             tracker_visit_expr_opt(&slice.stop, state);
             tracker_visit_expr_opt(&slice.step, state);
@@ -205,6 +206,8 @@ fn track_assign<'a>(expr: &ast::Expr<'a>, state: &mut AssignmentTracker<'a>) {
         ast::Expr::Var(var) => state.assign(var.id),
         ast::Expr::List(list) => list.items.iter().for_each(|x| track_assign(x, state)),
         ast::Expr::Tuple(tuple) => tuple.items.iter().for_each(|x| track_assign(x, state)),
+        // `set ns.attr = ...` reads the namespace
+        ast::Expr::GetAttr(attr) => tracker_visit_expr(&attr.expr, state),
         _ => {}
     }
 }
@@ -252,11 +255,13 @@ fn track_walk<'a>(node: &ast::Stmt<'a>, state: &mut AssignmentTracker<'a>) {
             tracker_visit_expr(&stmt.expr, state);
         }
         ast::Stmt::AutoEscape(stmt) => {
+            tracker_visit_expr(&stmt.enabled, state);
             state.push();
             stmt.body.iter().for_each(|x| track_walk(x, state));
             state.pop();
         }
         ast::Stmt::FilterBlock(stmt) => {
+            tracker_visit_expr(&stmt.filter, state);
             state.push();
             stmt.body.iter().for_each(|x| track_walk(x, state));
             state.pop();
